@@ -138,6 +138,8 @@ pub struct PropCtx {
     inconclusive: Mutex<Vec<String>>,
     /// Strict mode (replay): known findings are not tolerated silently.
     pub strict: bool,
+    /// Shrinking budget per failing worker (process-spawning checks lower it).
+    pub shrink_iters: std::sync::atomic::AtomicU32,
 }
 
 fn hash_value<T: Hash>(v: &T) -> u64 {
@@ -198,9 +200,13 @@ impl PropCtx {
             exhaustive: AtomicBool::new(false),
             inconclusive: Mutex::new(vec![]),
             strict: false,
+            shrink_iters: std::sync::atomic::AtomicU32::new(4000),
         }
     }
 
+    pub fn set_shrink_iters(&self, n: u32) {
+        self.shrink_iters.store(n, Ordering::Relaxed);
+    }
     pub fn rule(&self, text: &str) {
         self.rules.lock().unwrap().push(text.to_string());
     }
@@ -384,7 +390,7 @@ impl PropCtx {
                     let cfg = Config {
                         cases: n,
                         failure_persistence: None,
-                        max_shrink_iters: 4000,
+                        max_shrink_iters: self.shrink_iters.load(Ordering::Relaxed),
                         max_global_rejects: u32::MAX,
                         max_local_rejects: u32::MAX,
                         ..Config::default()
